@@ -103,8 +103,10 @@ def build(prop, tier, seed, pmod, ded, nat, extra, reg, n_obl, n_dis, vc_time, b
 
 
 def write(prop, ev):
-  os.makedirs(os.path.join(HERE, 'evidence'), exist_ok=True)
-  path = os.path.join(HERE, 'evidence', prop + '.json')
+  # evidence describes /repo itself; a run against a scratch copy (VERIF_REPO=...) writes elsewhere
+  sub = 'evidence' if os.path.realpath(os.environ.get('VERIF_REPO', '/repo')) == '/repo' else 'replays/scratch_evidence'
+  os.makedirs(os.path.join(HERE, sub), exist_ok=True)
+  path = os.path.join(HERE, sub, prop + '.json')
   try:
     import jsonschema
     if os.path.exists(SCHEMA):
